@@ -47,6 +47,13 @@ CLAIMED = {
                      "every public operation of the real node_version64 on all 64 flag sets x counter boundary values (TraceVersionSeq).",
                 note="SC atomics; model counters mod 4, code modulus checked by replay at 0,1,2,2^28,2^29-2,2^29-1.",
                 tech="TLA+ model checking (TLC) + TLC trace validation of replayed implementation transitions"),
+    "C18": dict(cat="model_checking", ref="DESIGN.md 3.1, 6 (C18)",
+                text="TLC proves on a boundary tuple domain (bytes 00/01/FF at slice positions 1,2,8; all lengths and the link marker) that TupLess is a strict total "
+                     "order equal to the lexicographic order of the keys and that every transliterated comparison site (key_tuple::operator<, leaf lookup and rank, "
+                     "interior routing and insert position, both split sides) agrees with it; the real sites are replayed on hand-built nodes for all 12.5k pairs and "
+                     "judged by TLC (TraceOrder); API traces over boundary keys exercise split sides, routing and cursor order end to end.",
+                note="domain is finite (boundary bytes / positions); zero padding of slices is an invariant checked in the structural traces",
+                tech="TLA+ model checking (TLC) + TLC trace validation of replayed comparison sites and API traces"),
     "C19": dict(cat="model_checking", ref="DESIGN.md 3.2, 6 (C19)",
                 text="TLC explores all reachable orderings of YkPerm for F=6 (8 in thorough) and judges a replay of the real 64-bit permutation word (every count, rank, "
                      "free slot on an ordering family + random walks) against the sequence operators; exactly one word store per update.",
